@@ -37,9 +37,9 @@ BOUNDS = {
              "depth 2 from n<=45 and around the first three-level size (plain), depth 1 from n<=60 + boundary sizes and depth 2 from n<=3*leaf (ASan).",
     "thorough": "Thorough, plain -O2 build: mode A for capacities (4,4),(4,5),(5,4),(5,5),(6,4),(4,6) x 4 kinds x {linear+less, binary+greater} ((4,4): all four combinations): "
                 "set/map K=14 for (4,4) (three-level trees), K=13 otherwise, multiset K=4,M=5, multimap K=4,M=5 (data values abstracted) and K=3,M=3 (exact); two-tree "
-                "configurations K=7 (multi: K=3,M=3); maps with 2 data values per key K=9; tracked elements K=12 / K=4,M=4; mode B for every (leaf,inner) in [4..9]^2 with two "
-                "type configurations each (set+multimap or map+multiset, linear+less and binary+greater): depth 1 from every n<=3*leaf*(inner+1), depth 2 from every n<=64 and "
-                "around the first three-level size leaf*(inner+1)+1, depth 3 from n<=36 for (4,4),(4,5),(5,4); default traits (32..64-slot class): depth 1 from 12 boundary "
+                "configurations K=7 (multi: K=3,M=3); maps with 2 data values per key K=9; tracked elements K=12 / K=4,M=4 and mode B depth 2 from n<=40; mode B for every (leaf,inner) in [4..9]^2 with two "
+                "type configurations each (set+multimap or map+multiset, linear+less and binary+greater): depth 1 from every n<=3*leaf*(inner+1), depth 2 from every n<=64 (multi kinds without repeated seed keys: n<=54) and "
+                "around the first three-level size leaf*(inner+1)+1, depth 3 from n<=36 (multi: n<=28) for (4,4),(4,5),(5,4); default traits (32..64-slot class): depth 1 from 12 boundary "
                 "sizes. ASan build: the same mode A configurations with K two smaller (12/11, multi M=4), tracked K=10, mode B depth 1 from n<=90 + boundary sizes, depth 2 "
                 "from n<=2*leaf+8.",
 }
